@@ -191,7 +191,8 @@ def run(ctx, rep, tier):
     need("OutIntegerExpr", r"state->c\.\{intexpr\.ref\.name\}", "variable read")
     need("StringLengthIntegerExpr", r"state->\{intexpr\.ref\.name\}_counter", "string length is its counter")
     lit = ast.unparse(model.func("CodegenCtx._convert_literal_value"))
-    rep.check(model.has("CodegenCtx._convert_literal_value", "'true' if literal.get_literal_result() else 'false'") and model.has("CodegenCtx._convert_literal_value", "str(literal.get_literal_result())"), "C14.c", "CodegenCtx._convert_literal_value",
+    rep.check(model.has("CodegenCtx._convert_literal_value", "'true' if literal.get_literal_result() else 'false'") and (model.has("CodegenCtx._convert_literal_value", "str(literal.get_literal_result())") or
+                (model.has("CodegenCtx._convert_literal_value", "value = literal.get_literal_result()") and model.has("CodegenCtx._convert_literal_value", "str(value)"))), "C14.c", "CodegenCtx._convert_literal_value",
               "bool -> true/false, int -> decimal", "literal rendering changed")
 
     # ------------------------------------------------------------------ C14.d coercions
@@ -361,3 +362,37 @@ def run(ctx, rep, tier):
         rep.ok("C14.l", "CodegenCtx", "no constant range test (constants are left to the C compiler: C11.n)", nontrivial=False)
     delegate(ctx, rep, tier, "C01", ("C01.l",), "C14.i", "an expression's value is what the procedural reading gives: groups of assignments repeated per byte are refused when one reads what another writes (expression reads include index and operand reads)")
     delegate(ctx, rep, tier, "C13", ("C13.g",), "C14.j", "an expression passed as a macro argument means the same in every context it is used in (assignment, append, condition): all parse entry points switch to its call-site scope")
+
+
+# ---------------------------------------------------------------------------------------------------------------- C14.m
+def _folding_divides_like_c(ctx, rep, tier):
+    """C14.m (F-104): a constant (sub)expression is folded at compile time - for default values, for the zero-divisor / shift-count / range refusals - with Python
+    arithmetic. Python's // and % round towards minus infinity, C truncates towards zero and gives the remainder the dividend's sign: they agree only on operands of
+    one sign. In the folding of `/` and `%` the floor operators may therefore only be applied to absolute values, with the sign put back afterwards."""
+    import ast
+    model = ctx.model
+    rep.rule("C14.m", "constant folding of / and % follows C (quotient truncated towards zero, remainder with the dividend's sign)")
+    q = "MulIntegerExpr.get_literal_result"
+    fn = model.func(q)
+    floor_ops = [n for n in ast.walk(fn) if (isinstance(n, (ast.BinOp, ast.AugAssign)) and isinstance(n.op, (ast.FloorDiv, ast.Mod)))]
+    bad = []
+    for n in floor_ops:
+        operands = [n.left, n.right] if isinstance(n, ast.BinOp) else [n.target, n.value]
+        if not all(isinstance(o, ast.Call) and ast.unparse(o.func) == "abs" for o in operands):
+            bad.append(ast.unparse(n))
+    rep.check(not bad, "C14.m", q, "// and % are applied to absolute values only",
+              f"`{bad[0] if bad else ''}` folds with Python's floor semantics: `-1 / 2` is -1 and `-7 % 3` is 2 at compile time, 0 and -1 in the emitted C - the zero-divisor refusal "
+              "lets `7 / (-1 / 2)` through (the C divides by zero) and a folded default value differs from what the same expression computes at run time",
+              line=(floor_ops[0].lineno if floor_ops else fn.lineno))
+    sign = model.has(q, "quotient = abs(total) // abs(value)\nif (total < 0) != (value < 0):\n    quotient = -quotient") and \
+        model.has(q, "total = quotient if operator == MulIntegerExprOp.DIV else total - quotient * value")
+    rep.check(bool(floor_ops) and sign, "C14.m", q, "sign restored: quotient negative iff the operands' signs differ; remainder = dividend - quotient * divisor",
+              "the sign correction of the folded quotient / remainder changed")
+
+
+_run_m14 = run
+
+
+def run(ctx, rep, tier):
+    _run_m14(ctx, rep, tier)
+    _folding_divides_like_c(ctx, rep, tier)
